@@ -43,6 +43,27 @@
 //     of a bucket boundary; the generator only draws such values (exact
 //     powers of two are boundaries and are left to C07), and a stream that
 //     received any other value (hand-edited replay) skips the bucket clause.
+//   - A callback may return an error. What the unchanged tree does is pinned:
+//     the observations it made before returning count (a callback that fails
+//     before observing has observed nothing), Collect returns the error
+//     together with the complete data, and the cycle counts for that reader
+//     (its delta aggregates were drained). The error itself is not asserted;
+//     a Collect error in a cycle without a failing callback is a violation.
+//   - Concurrent Collect calls on one reader ("burst" step, Reader.Collect is
+//     documented as concurrent safe): each of the N calls is one collection
+//     cycle of that reader with its own callback round; the k-th invocation of
+//     a callback during the step observes its planned values plus 0, 1, 3 for
+//     k = 1, 2, 3, so that rounds are told apart in cumulative and in delta
+//     outputs. The outputs are ordered by their earliest point Time (the
+//     cycles are serialised by the pipeline lock, outputs without points
+//     last) and then held to exactly the per-cycle rules of the statement:
+//     output k reports the sets and values of round k, deltas against round
+//     k-1, running totals over all of them. The other reader collects once at
+//     the same point of the measurement history. Because the position of an
+//     output without points cannot be told, each of the N collections is
+//     bracketed by the whole step; if two outputs carry the same earliest
+//     Time the interval and async clauses are skipped for the history
+//     (counted as a class; never seen).
 //   - Any ResourceMetrics is legal input to Collect: a fresh one, the one the
 //     same reader filled last time, or one the other reader filled (the case
 //     says which, per Collect); what Collect leaves in it is what the reader
@@ -174,7 +195,15 @@ type Obs struct {
 type Op struct {
 	// K: "rec" (Inst = sync instrument, Set, V), "plan" (Inst = observable
 	// instrument, Plan replaces what callbacks observe for it from now on),
-	// "reg" / "unreg" (CB = multi callback slot), "collect".
+	// "reg" / "unreg" (CB = multi callback slot), "collect",
+	// "fail" (from now on the callback named by Via / Inst - Via 0: the own
+	// callback of observable Inst, Via j >= 1: multi slot j-1 - behaves per
+	// Mode: 0 succeeds, 1 returns an error before observing, 2 observes, then
+	// returns an error; for the next N collection steps, N = 0: until changed),
+	// "burst" (N = 2..3 goroutines call Collect on reader R ("d" / "c") at
+	// once, each with its own ResourceMetrics, every observing callback
+	// executing vk.Perturb(Delay) after its first observation; the other
+	// reader collects once, before (CumFirst) or after the burst).
 	K        string `json:"k"`
 	Inst     int    `json:"inst,omitempty"`
 	Set      int    `json:"set,omitempty"`
@@ -189,6 +218,12 @@ type Op struct {
 	// ResourceMetrics is legal input").
 	DRM int `json:"drm,omitempty"`
 	CRM int `json:"crm,omitempty"`
+	// fail / burst
+	Via   int    `json:"via,omitempty"`
+	Mode  int    `json:"mode,omitempty"`
+	N     int    `json:"n,omitempty"`
+	R     string `json:"r,omitempty"`
+	Delay int    `json:"delay,omitempty"`
 }
 
 const rmPool = 3
@@ -465,17 +500,24 @@ func gen(t *rapid.T) Case {
 	// The body: stateless steps (a "reg" of a registered slot / an "unreg" of
 	// an unregistered one is a no-op when the history runs), so that rapid can
 	// drop steps while shrinking. "collect" is the simplest step.
-	planW, regW := 0, 0
+	planW, regW, failW, burstW := 0, 0, 0, 2
 	if len(obsAct) > 0 {
-		planW = 24
+		planW, failW, burstW = 24, 4, 4
 	}
 	if nMulti > 0 {
 		regW = 8
 	}
+	// Some histories have no failing callback / no concurrent step at all.
+	if rapid.IntRange(0, 2).Draw(t, "no_failures") == 0 {
+		failW = 0
+	}
+	if rapid.IntRange(0, 2).Draw(t, "no_bursts") == 0 {
+		burstW = 0
+	}
 	step := rapid.Custom(func(t *rapid.T) Op {
 		w := rapid.IntRange(0, 99).Draw(t, "op")
 		switch {
-		case w < 24 || (len(syncAct) == 0 && w >= 24+planW+regW):
+		case w < 24 || (len(syncAct) == 0 && w >= 24+planW+regW+failW+burstW):
 			return genCollect(t)
 		case w < 24+planW:
 			o := rapid.SampledFrom(obsAct).Draw(t, "obs")
@@ -486,6 +528,21 @@ func gen(t *rapid.T) Case {
 				k = "unreg"
 			}
 			return Op{K: k, CB: rapid.IntRange(0, nMulti-1).Draw(t, "cb")}
+		case w < 24+planW+regW+failW:
+			op := Op{K: "fail", Mode: rapid.SampledFrom([]int{0, 1, 2, 2}).Draw(t, "mode"),
+				N: rapid.SampledFrom([]int{1, 1, 2, 3, 0}).Draw(t, "fail_for")}
+			if nMulti > 0 && rapid.Bool().Draw(t, "fail_multi") {
+				op.Via = rapid.IntRange(1, nMulti).Draw(t, "fail_slot")
+			} else {
+				op.Inst = rapid.SampledFrom(obsAct).Draw(t, "fail_inst")
+			}
+			return op
+		case w < 24+planW+regW+failW+burstW:
+			return Op{K: "burst",
+				R:        rapid.SampledFrom([]string{"d", "c"}).Draw(t, "burst_reader"),
+				N:        rapid.IntRange(2, 3).Draw(t, "burst_n"),
+				Delay:    rapid.SampledFrom([]int{1, 2, 3, 3, 4}).Draw(t, "burst_delay"),
+				CumFirst: rapid.Bool().Draw(t, "other_first")}
 		default:
 			inst := rapid.SampledFrom(syncAct).Draw(t, "inst")
 			return Op{K: "rec", Inst: inst,
@@ -506,9 +563,10 @@ func TestDeltaCumulative(t *testing.T) {
 		Rule: "one MeterProvider, a delta and a cumulative ManualReader; history of <= 60 steps over record (sync counter / up-down / explicit + exponential histogram / gauge, int64 and float64; " +
 			"explicit histograms with default, advisory and View boundary lists of 1..25 buckets in two scopes; instruments created up front or at first use), " +
 			"setObservationPlan (observable counter / up-down / gauge fed by instrument callbacks and by RegisterCallback callbacks, incl. observations for instruments a callback is not registered for), " +
-			"register / unregister callback, collectBoth (each Collect given a fresh ResourceMetrics, the reader's own previous output or a pool slot either reader filled before); 1..5 attribute sets from a fixed pool; " +
+			"register / unregister callback, callbacks that return an error for 1..3 collection steps (before or after observing), concurrent-collect steps (2..3 goroutines Collect on one reader at once, callbacks perturbed by Gosched / 20us..1ms sleeps), collectBoth (each Collect given a fresh ResourceMetrics, the reader's own previous output or a pool slot either reader filled before); 1..5 attribute sets from a fixed pool; " +
 			"non-trivial = >= 3 collections and (a stream that is reported, then absent for a cycle, then reported again, or a multi-instrument callback that observed in a cycle and is unregistered before a later one); distinct = distinct case encodings",
 		Quick: 8000, Thorough: 120000,
 		Gen: gen, Run: run,
+		Repeat: 5, // histories with a concurrent step: re-run a replay a few times
 	})
 }
